@@ -24,7 +24,21 @@ Definition memN (p : N) (l : list N) : bool := existsb (N.eqb p) l.
 Definition add_perms (old ps : list N) : list N :=
   fold_left (fun acc p => if memN p acc then acc else acc ++ [p]) ps old.
 
+(* repaired builder (fix 0c2c3c02): LightWeight(true) only sets the lightweight flag *)
 Definition apply1 (f : flags) (c : call) : flags :=
+  match c with
+  | Authentication b => mkFlags b (can_auth f) (lightweight f) (perms f) (valid f)
+  | LightWeight b => mkFlags (if b then must_auth f else true) (can_auth f) b (perms f) (valid f)
+  | Permissions ps =>
+      mkFlags true (can_auth f) (lightweight f)
+              (Some (add_perms (match perms f with Some l => l | None => [] end) ps)) (valid f)
+  | CanAuthenticate b => mkFlags (must_auth f) b (lightweight f) (perms f) (valid f)
+  | ValidateUsing => mkFlags (must_auth f) (can_auth f) (lightweight f) (perms f) true
+  end.
+Definition build (cs : list call) : flags := fold_left apply1 cs new_route.
+
+(* the builder before the repair: LightWeight(flag) assigned mustAuthenticate = !flag *)
+Definition apply1_old (f : flags) (c : call) : flags :=
   match c with
   | Authentication b => mkFlags b (can_auth f) (lightweight f) (perms f) (valid f)
   | LightWeight b => mkFlags (negb b) (can_auth f) b (perms f) (valid f)
@@ -34,7 +48,7 @@ Definition apply1 (f : flags) (c : call) : flags :=
   | CanAuthenticate b => mkFlags (must_auth f) b (lightweight f) (perms f) (valid f)
   | ValidateUsing => mkFlags (must_auth f) (can_auth f) (lightweight f) (perms f) true
   end.
-Definition build (cs : list call) : flags := fold_left apply1 cs new_route.
+Definition build_old (cs : list call) : flags := fold_left apply1_old cs new_route.
 
 (* what Authenticate leaves in the session: LockedOut, Authenticated, Admin, User <> "", the
    permission list resolved during authentication (token / JWT), and lookup p =
@@ -59,7 +73,42 @@ Inductive response := Invoked | Status (n : N).
    (r.Body == nil), Some v when there is one and v says whether it satisfies one of the route's
    validations.  The validation block runs only while status is still 200: it sets 400 and goes back
    to 200 when one validation accepts the body. *)
+(* repaired gate: needsAuthentication = mustAuthenticate || requiredPermissions != nil; a lightweight
+   route skips the authentication step only when it has nothing to enforce *)
+Definition needs_auth (f : flags) : bool :=
+  must_auth f || match perms f with Some _ => true | None => false end.
+
 Definition serve (f : flags) (c0 : cred) (lookup0 : N -> bool) (media_ok post_ok : bool)
+                 (body : option bool) : response :=
+  let na := needs_auth f in
+  let skip := lightweight f && negb na in
+  let c := if skip then zero_cred lookup0 else c0 in
+  if negb skip && locked c0 then Status 429
+  else if negb skip && negb (authed c0) && na then Status 403
+  else
+    let st1 := if media_ok then 200 else 400 in
+    let st2 :=
+      if st1 =? 200 then
+        match perms f with
+        | Some ps =>
+            if admin c then 200
+            else match find (fun p => negb (granted c p)) ps with
+                 | Some _ => if negb (has_user c) && can_auth f then 401 else 403
+                 | None => 200
+                 end
+        | None => 200
+        end
+      else st1 in
+    let st3 := if (st2 =? 200) && negb post_ok then 400 else st2 in
+    if (st3 =? 200) && na && negb (authed c) && can_auth f then Status 401
+    else
+      let st4 := if (st3 =? 200) && valid f
+                 then match body with Some v => if v then 200 else 400 | None => st3 end
+                 else st3 in
+      if st4 =? 200 then Invoked else Status st4.
+
+(* the gate before the repair: lightweight routes never authenticated; only mustAuthenticate was looked at *)
+Definition serve_old (f : flags) (c0 : cred) (lookup0 : N -> bool) (media_ok post_ok : bool)
                  (body : option bool) : response :=
   let c := if lightweight f then zero_cred lookup0 else c0 in
   if negb (lightweight f) && locked c0 then Status 429
